@@ -2,7 +2,7 @@
    are the BTreeMaps of the code): needed because compile looks edges up with
    `get`. *)
 From Coq Require Import List NArith Bool Arith Lia FinFun.
-From SNT Require Import Base.Outcome Automata.Regex Automata.NFA Automata.Build Automata.Compile
+From SNT Require Import Base.Outcome Automata.Regex Automata.RegexInd Automata.NFA Automata.Build Automata.Compile
   Automata.PathLemmas Automata.BuildLeaves Automata.BuildFrames Automata.CompileSpec Automata.BuildProofs.
 Import ListNotations.
 
